@@ -24,6 +24,7 @@ type CaseC06 struct {
 	Input     []byte                 `json:"input,omitempty"`
 	Pristine  bool                   `json:"pristine,omitempty"`
 	UseNumber bool                   `json:"use_number,omitempty"`
+	Alias     *AliasSpec             `json:"alias,omitempty"` // the encoded Map holds one container object twice (built in Go, not decoded); the reference sees it by value
 }
 
 func init() { register("C06", checkC06) }
@@ -117,6 +118,9 @@ func genC06(t *rapid.T) CaseC06 {
 		c.Indent = rapid.Bool().Draw(t, "indent")
 		c.Prefix = rapid.SampledFrom([]string{"", " ", "\t"}).Draw(t, "p")
 		c.Ind = rapid.SampledFrom([]string{"", "  ", "\t"}).Draw(t, "i")
+		if rapid.IntRange(0, 3).Draw(t, "alias") == 0 {
+			c.Alias = &AliasSpec{Src: rapid.IntRange(0, 30).Draw(t, "asrc"), Dst: rapid.IntRange(0, 30).Draw(t, "adst"), Key: rapid.SampledFrom([]string{"al", "a", "k"}).Draw(t, "akey")}
+		}
 		return c
 	}
 	var b []byte
@@ -185,6 +189,15 @@ func checkC06(c CaseC06, info *Info) *Failure {
 			c.Map = map[string]interface{}{}
 		}
 		subject := copyMap(c.Map)
+		if c.Alias != nil {
+			byValue := copyMap(c.Map)
+			if applyAlias(subject, *c.Alias, true) && applyAlias(byValue, *c.Alias, false) {
+				c.Map = byValue
+				info.Class("shared sub-structure in the encoded Map")
+			} else {
+				subject = copyMap(c.Map)
+			}
+		}
 		var b []byte
 		var err error
 		if c.Indent {
